@@ -170,3 +170,87 @@ def equivariance_contract():
 
     return Contract(name="lemma:scale_equivariance_of_the_ekf_specification", module=MOD, qualname="scaled_pair", requires=requires, ensures=ensures, instances=instances,
                     doc="multiplying the prior's base scale by c (P, Q -> c^2 P, c^2 Q; damp = 0) leaves the posterior mean, the calibrated covariance and the local error quantity unchanged, multiplies the uncalibrated covariance by c^2 and divides the quasi-MLE term by c")
+
+
+# ---- permutation equivariance of the specification (C15) -------------------------------------------------
+
+
+def ekf_gain_form(Phi, Q, m, P, H, b, R, K, w):
+    """Inverse-free EKF step: K is any matrix with K S = P^- H^T and w any vector with S w = r (both are outputs
+    of the C02/C08 contracts as ghost witnesses)."""
+    m_pred = Phi @ m
+    P_pred = Phi @ P @ Phi.T + Q
+    S = H @ P_pred @ H.T + R
+    r = H @ m_pred + b
+    return dict(S=S, r=r, C=P_pred @ H.T, m_post=m_pred - K @ r, P_post=P_pred - K @ S @ K.T, term2=(r @ w) / r.size)
+
+
+def permuted_pair(Phi1, Q1, m, P, rho, K, w, t, *, perm):
+    """First-order (dense Jacobian) EKF step for u' = f(u, t) and for the permuted problem
+    v = Pi u,  v' = Pi f(Pi^T v, t), started from the permuted state; coefficient-major layout (I_n (x) Pi).
+    The permuted problem uses the permuted witnesses (I (x) Pi) K Pi^T and Pi w."""
+    from . import ivp
+
+    n, d = Phi1.shape[0], len(perm)
+    Pi = jnp.eye(d)[jnp.asarray(perm)]
+    big = jnp.kron(jnp.eye(n), Pi)
+    f = ivp.get_uf(d, 1)
+    Phi, Q = jnp.kron(Phi1, jnp.eye(d)), jnp.kron(Q1, jnp.eye(d))
+
+    def lin(fun, mv):
+        x0, x1 = mv[:d], mv[d : 2 * d]
+        J = jax.jacfwd(lambda x: fun(x, t))(x0)
+        H = jnp.zeros((d, n * d)).at[:, :d].set(-J).at[:, d : 2 * d].set(jnp.eye(d))
+        r = x1 - fun(x0, t)
+        return H, r - H @ mv
+
+    H, b = lin(f, Phi @ m)
+    one = ekf_gain_form(Phi, Q, m, P, H, b, rho * rho * jnp.eye(d), K, w)
+    g = lambda x, tt: Pi @ f(Pi.T @ x, tt)
+    m2, P2 = big @ m, big @ P @ big.T
+    H2, b2 = lin(g, Phi @ m2)
+    two = ekf_gain_form(Phi, Q, m2, P2, H2, b2, rho * rho * jnp.eye(d), big @ K @ Pi.T, Pi @ w)
+    return one, two
+
+
+def permutation_contract():
+    keys = ("S", "r", "C", "m_post", "P_post", "term2")
+
+    def wrap(target):
+        def f(Phi1, Q1, m, P, rho, K, w, t, *, perm):
+            one, two = target(Phi1, Q1, m, P, rho, K, w, t, perm=perm)
+            return [one[k] for k in keys], [two[k] for k in keys]
+
+        return f
+
+    def requires(Phi1, Q1, m, P, rho, K, w, t, *, perm):
+        one, _ = permuted_pair(Phi1, Q1, m, P, rho, K, w, t, perm=perm)
+        return [eq("K_is_a_gain", K @ one["S"], one["C"]), eq("w_whitens_the_residual", one["S"] @ w, one["r"])]
+
+    def ensures(res, Phi1, Q1, m, P, rho, K, w, t, *, perm):
+        one, two = (dict(zip(keys, r)) for r in res)
+        n, d = Phi1.shape[0], len(perm)
+        Pi = jnp.eye(d)[jnp.asarray(perm)]
+        big = jnp.kron(jnp.eye(n), Pi)
+        return [eq("innovation_covariance_is_permuted", two["S"], Pi @ one["S"] @ Pi.T), eq("residual_is_permuted", two["r"], Pi @ one["r"]),
+                eq("permuted_gain_is_a_gain_of_the_permuted_problem", (big @ K @ Pi.T) @ two["S"], two["C"]),
+                eq("permuted_witness_whitens_the_permuted_residual", two["S"] @ (Pi @ w), two["r"]),
+                eq("posterior_mean_is_permuted", two["m_post"], big @ one["m_post"]), eq("posterior_cov_is_permuted", two["P_post"], big @ one["P_post"] @ big.T),
+                eq("mle_term_unchanged", two["term2"], one["term2"])]
+
+    def instances(tier):
+        import itertools
+
+        out = []
+        fam = [(2, p) for p in itertools.permutations(range(2))] + [(2, (1, 2, 0)), (2, (0, 2, 1))]
+        if tier == "thorough":
+            fam = [(2, p) for d in (2, 3) for p in itertools.permutations(range(d))] + [(3, (1, 0)), (3, (2, 0, 1)), (2, (1, 3, 0, 2))]
+        for n, perm in fam:
+            d = len(perm)
+            def make(rng, n=n, d=d, perm=perm):
+                return tuple(jnp.asarray(x) for x in (rng.normal(size=(n, n)), rng.normal(size=(n, n)), rng.normal(size=(n * d,)), rng.normal(size=(n * d, n * d)), rng.uniform(0.1, 1.0), rng.normal(size=(n * d, d)), rng.normal(size=(d,)), rng.normal())), {"perm": perm}
+            out.append(Instance(f"n={n},perm={perm}", make))
+        return out
+
+    return Contract(name="lemma:permutation_equivariance_of_the_ekf_specification", module=MOD, qualname="permuted_pair", wrap=wrap, requires=requires, ensures=ensures, instances=instances,
+                    doc="permuting the state components (v = Pi u, field Pi f(Pi^T v, t), state (I (x) Pi) m, (I (x) Pi) P (I (x) Pi)^T) permutes the first-order EKF step: the permuted gain / whitening witnesses are witnesses of the permuted problem, mean and covariance are permuted, the quasi-MLE term is unchanged (with gain uniqueness: every solution of the permuted problem); the Jacobian of the permuted field is obtained by differentiating it (uninterpreted f)")
